@@ -60,6 +60,11 @@ func main() {
 			}
 			for _, s := range p.Facts(fn).StoreFacts() {
 				fmt.Printf("%s: %s\n", p.Pos(s.In.Pos()), s.S)
+				if os.Getenv("FACTS") != "" {
+					for _, a := range p.Facts(fn).MustAt(s.In) {
+						fmt.Printf("        %s\n", a.S)
+					}
+				}
 			}
 		}
 		return
